@@ -153,6 +153,20 @@ def proposal_store(repo, run):
         run.report("C04.4", DS, prop[0] if prop else m.loop, "the integrator's proposed step is not stored exactly once under `not %s`: after a clamped last step "
                                                              "the (short) remainder would replace the user's step, or the proposal is lost" % flag,
                    text="proposal store guard")
+    # ... and the proposal is stored AFTER the nested integrate() call that lands on a terminal event: that call halves / clamps dt for its own short span, and it is
+    # the proposal store that puts the requested step back for the continued run
+    if prop and m.recursive:
+        from ..imodel import path_key
+        def stmt_of(n):
+            while not isinstance(n, ast.stmt):
+                n = n._parent
+            return n
+        late = all(path_key(stmt_of(c), m.fn) < path_key(prop[0], m.fn) for c in m.recursive)
+        run.judged(rid, "the proposal store follows the nested integrate() call(s) of the iteration", ok=late)
+        if not late:
+            run.report("C04.4", DS, prop[0], "the integrator's proposal is stored into dt BEFORE the nested `self.integrate(root)` call of a terminal event: that call shortens dt to "
+                                             "(half) the distance to the root and nothing restores it, so a run continued after the event takes steps of |root - t|/2 instead of the "
+                                             "requested dt", text="proposal store precedes the nested integrate call")
     others = [st for st in stores if st not in prop]
     run.judged(rid, "other stores to dt in the step loop: %d" % len(others), ok=not others)
     for st in others:
